@@ -71,6 +71,10 @@ func (r *c13Rec) flush() {
 			rec["a"] = rank[ti.(int)]
 			delete(rec, "ti")
 		}
+		if tt, ok := rec["tt"]; ok {
+			rec["t"] = rank[tt.(int)]
+			delete(rec, "tt")
+		}
 		r.tw.Emit(rec)
 	}
 	r.buf = nil
@@ -171,6 +175,9 @@ func (r *c13Rec) hook(ev string, o1, o2 any, a, b int) {
 		r.mu.Unlock()
 		return
 	}
+	// time of logging, taken under the log's mutex: monotonic along the log
+	rec["tt"] = len(r.times)
+	r.times = append(r.times, time.Now())
 	r.nev++
 	r.buf = append(r.buf, rec)
 	r.mu.Unlock()
@@ -270,10 +277,21 @@ func c13RunOne(t *testing.T, rng *rand.Rand, tw *vfTraceWriter, trNo int, cfg c1
 		}()
 	}
 	stopped := false
-	if cfg.stopMode == 1 {
+	if cfg.stopMode == 1 || cfg.stopMode == 3 {
 		time.Sleep(time.Duration(rng.Intn(1500)) * time.Microsecond)
 		wp.Stop()
 		stopped = true
+	}
+	if cfg.stopMode == 3 {
+		// restart the stopped pool while connections accepted before the Stop may still be served
+		time.Sleep(time.Duration(rng.Intn(600)) * time.Microsecond)
+		rec.mu.Lock()
+		rec.buf = append(rec.buf, vfRec{"ev": "wp.start", "a": 0, "b": 0, "tt": len(rec.times)})
+		rec.times = append(rec.times, time.Now())
+		rec.nev++
+		rec.mu.Unlock()
+		wp.Start()
+		stopped = false
 	}
 	wg.Wait()
 	// wait until every accepted connection has been finished
@@ -382,7 +400,7 @@ func TestVerifC13WorkerPool(t *testing.T) {
 	kinds := map[string]int{}
 	for i := 1; i <= ntr; i++ {
 		cfg := c13Cfg{maxw: maxw, nconns: 2 + rng.Intn(7), producers: 1 + rng.Intn(3), cap: capv,
-			stopMode: rng.Intn(3), hijackPct: 25}
+			stopMode: rng.Intn(4), hijackPct: 25}
 		if cfg.stopMode == 2 && rng.Intn(3) != 0 {
 			cfg.stopMode = 1
 		}
